@@ -213,6 +213,15 @@ fn main() {
             println!("{}", c12file::one(&arg_val(&args, "--path").unwrap_or_else(|| harness_error("--path"))));
             0
         }
+        "bigreader" => {
+            let variant = parse_u64(&arg_val(&args, "--variant").unwrap_or_else(|| "1".into())) as u8;
+            let pattern = data::unhex(&arg_val(&args, "--pattern").unwrap_or_else(|| "a40e".into())).unwrap_or_else(|e| harness_error(&e));
+            let seed = parse_u64(&arg_val(&args, "--seed").unwrap_or_else(|| "1".into()));
+            let total = parse_u64(&arg_val(&args, "--total").unwrap_or_else(|| "4224281216".into()));
+            let (code, rep) = c11big::big_reader(variant, &pattern, seed, total);
+            println!("{}", serde_json::to_string(&rep).unwrap());
+            code
+        }
         "race" => {
             // C07 (c): first-call race on real threads (meant to run under Miri and natively)
             let seed = parse_u64(&arg_val(&args, "--seed").unwrap_or_else(|| "20260926".into()));
